@@ -39,6 +39,12 @@ REQUIRED_COUNTERS = ["noop_applies", "split_join_roundtrips",
                      "alignment_checks"]
 
 
+def shuffled(rng, items):
+    out = sorted(items)
+    rng.shuffle(out)
+    return out
+
+
 def gen_case(rng, tier, index):
     w = index % 3
     if w == 0:
@@ -47,6 +53,13 @@ def gen_case(rng, tier, index):
         case["edits"] = []
         case["workload"] = "noop"
         case["uninit_tail"] = rng.choice([0, 0, 3, 8])
+        if rng.random() < 0.3:
+            # .bss-like: behind the last block of a section a gap of
+            # uninitialised bytes and a data block without bytes
+            case["uninit_tail"] = 0
+            case["bss_gap"] = [rng.randrange(len(case["secs"])),
+                               rng.choice([1, 2, 3, 4, 6, 8]),
+                               rng.choice([4, 8])]
         case["auto_align"] = rng.random() < 0.5
         case["align_seed"] = rng.randrange(1 << 30)
         return case
@@ -67,8 +80,9 @@ def gen_case(rng, tier, index):
              "exprs": sorted({rng.randrange(0, max(size, 1))
                               for _ in range(rng.randrange(0, 4))})
              if size else [],
-             "ann": sorted({rng.randrange(0, size + 1)
-                            for _ in range(rng.randrange(0, 4))}),
+             # (recorded in any order: tables are dicts)
+             "ann": shuffled(rng, {rng.randrange(0, size + 1)
+                                   for _ in range(rng.randrange(0, 5))}),
              "tables": rng.choice(["default", "custom", "none"]),
              "alignment": rng.choice([None, "table", "table"]),
              "aligns": [rng.choice([1, 2, 4, 8, 16])
@@ -122,14 +136,66 @@ def run_noop(case):
         for row in bu.intervals:
             bi = row[-1]
             bi.size = bi.size + tail     # uninitialized tail, no block
+    want_refusal = False
+    twin = None
+    if case.get("bss_gap"):
+        # the one change a no-op rewrite makes: uninitialised bytes in front
+        # of a later block become padding - whole nops in a code block behind
+        # code, zeros in a data block behind data
+        si, g, n = case["bss_gap"]
+
+        def add_bss(b_, pad):
+            bi = b_.intervals[si][-1]
+            last = max(bi.blocks, key=lambda b: b.offset, default=None)
+            if last is None or bi.size != len(bi.contents):
+                return None
+            old = bi.size
+            code = isinstance(last, gtirb.CodeBlock)
+            nop = nop_of(case["isa"])
+            if pad:
+                if code and g % len(nop):
+                    return "refuse"
+                bi.contents = bytes(bi.contents) + (
+                    nop * (g // len(nop)) if code else bytes(g))
+                pb = (gtirb.CodeBlock if code else gtirb.DataBlock)(
+                    offset=old, size=g)
+                pb.byte_interval = bi
+            bi.size = old + g + n
+            blk = gtirb.DataBlock(offset=old + g, size=n)
+            blk.byte_interval = bi
+            return "ok"
+        r1 = add_bss(bu, False)
+        if r1 is not None:
+            bu2, _ = irbuild.build(case)
+            if case.get("auto_align"):
+                apply_auto_align(case, bu2)
+            r2 = add_bss(bu2, True)
+            if r2 == "refuse":
+                want_refusal = True
+            else:
+                twin = canon.dumps(bu2.ir, skip_tables={"leafFunctions"})
+            ctr["bss_gaps"] = 1
     before = canon.dumps(bu.ir, skip_tables={"leafFunctions"})
+    if twin is not None:
+        before = twin
     import gtirb_functions
     from gtirb_rewriting import RewritingContext
     fns = gtirb_functions.Function.build_functions(m) \
         if "functionBlocks" in m.aux_data else []
     cfg_obj = bu.ir.cfg
     ctx = RewritingContext(m, fns)
-    ctx.apply()
+    try:
+        ctx.apply()
+    except Exception as exc:  # noqa
+        if want_refusal and type(exc).__name__ == "PaddingError":
+            ctr["expected_padding_refusals"] = 1
+            return {"sig": f"noop:{case['isa']}:bss-gap-refused",
+                    "violations": viol, "counters": ctr}
+        raise
+    if want_refusal:
+        viol.append({"key": "noop:gap-behind-code-not-a-multiple-of-the-nop"
+                            "-accepted", "msg": str(case["bss_gap"])})
+        return {"sig": None, "violations": viol, "counters": ctr}
     ctr["noop_applies"] = 1
     after = canon.dumps(bu.ir, skip_tables={"leafFunctions"})
     if bu.ir.cfg is not cfg_obj:
@@ -305,6 +371,19 @@ def run_splitjoin(c):
         if got_ann != snap_ann:
             viol.append({"key": "split:annotation-moved",
                          "msg": f"{got_ann} != {snap_ann}"})
+        # ... and every entry lies inside the piece it is keyed to (an entry
+        # at the very end of a piece belongs to the next one)
+        for o, v in table.items():
+            for k, p in enumerate(parts):
+                if o.element_id is p and (
+                        o.displacement > p.size or (
+                            o.displacement == p.size and p.size and
+                            k + 1 < len(parts))):
+                    viol.append({
+                        "key": "split:annotation-outside-its-piece",
+                        "msg": f"{v} at {o.displacement} of a piece of "
+                               f"size {p.size}"})
+
     for k, b in enumerate(blocks):
         if table.get(gtirb.Offset(b, 0)) != f"b{k}":
             viol.append({"key": "split:block-keyed-annotation-changed",
